@@ -502,7 +502,7 @@ func init() {
 		ID: "C12", Level: "model_checking", Graph: true,
 		Rule:      "sequence mode: every operation sequence of length d (quick 5, 6 for capacity 2; thorough 6/7) over {Get,Put(v1|v2),Delete}x{a,b,c}+Clear+CleanupExpired+2 clock advances, per (capacity 1..3) x (ttl 0,10,1e6 ticks), executed on a fresh real LRUCache under the virtual clock with Size/Capacity/Stats/Keys compared with the reference model after every step; evaluations = sequences executed; distinct_nontrivial = distinct canonical final model states reached (measured per worker, summed); graph mode: BFS to a fixed point over canonical model states (8 configurations), states/transitions counted, every transition executed on the implementation (traces_validated_against_impl); plus the default-capacity scenario (101 distinct puts) for capacity 0 and -1",
 		Assume:    []string{"clock owned through vtime (time.Now/Since rewritten by vinstr)", "map iteration order pinned (sorted) by vmap", "AccessedAt/AccessCount are write-only fields"},
-		QuickSecs: 100, ThorSecs: 1200,
+		QuickSecs: 240, ThorSecs: 1500,
 		Run: c12Run,
 		Replay: func(c *lib.Ctx, raw json.RawMessage) []lib.Violation {
 			var probe map[string]any
